@@ -1,6 +1,6 @@
 // C16: builders reject invalid steps without side effects and build what was accepted.
 
-use simple_sds::ops::{BitVec, Select};
+use simple_sds::ops::{BitVec, Select, Rank};
 use simple_sds::rl_vector::{RLVector, RLBuilder};
 use simple_sds::sparse_vector::{SparseVector, SparseBuilder};
 
@@ -277,6 +277,22 @@ fn r_step(ctx: &mut Ctx, b: &mut RLBuilder, m: &mut RModel, op: &ROp, hist: &dyn
                         ctx.violation("rl_builder.convert.content", format!("converted vector (len, ones, runs) = {:?}, accepted runs {:?} with len {} in {}", got, m.runs, m.len, hist()));
                         return false;
                     }
+                    // The positional queries go through the sampled indexes, the walk above does not: ends of up to 40 runs
+                    // spread over the vector (bit at start / before start / last / behind last, ranks there).
+                    let step = std::cmp::max(1, m.runs.len() / 40);
+                    let mut ones_before = 0usize;
+                    for (k, &(s0, l0)) in m.runs.iter().enumerate() {
+                        if k % step == 0 || k + 1 == m.runs.len() {
+                            // (the bit before a run start is unset: the model merges adjacent pieces, its runs are maximal)
+                            let want = (true, false, true, ones_before, ones_before + l0 - 1);
+                            let got = guard(|| (rv.get(s0), s0 > 0 && rv.get(s0 - 1), rv.get(s0 + l0 - 1), rv.rank(s0), rv.rank(s0 + l0 - 1)));
+                            if got != Ok(want) {
+                                ctx.violation("rl_builder.convert.queries", format!("(get(start), get(start-1), get(last), rank(start), rank(last)) = {:?}, expected {:?} for run #{} ({}, {}) of the converted vector in {}", got, want, k, s0, l0, hist()));
+                                return false;
+                            }
+                        }
+                        ones_before += l0;
+                    }
                 },
             }
         },
@@ -375,7 +391,8 @@ fn rl_random(ctx: &mut Ctx) {
         let scale_bits = match h % 4 { 0 => 4, 1 => 12, 2 => 40, _ => 62 };
         let mut b = RLBuilder::new();
         let mut m = RModel { len: 0, ones: 0, runs: Vec::new() };
-        let steps = 10 + rng.below(190);
+        // Every eighth history is long enough for the converted vector to have ten or more blocks.
+        let steps = if h % 8 == 7 { 600 + rng.below(600) } else { 10 + rng.below(190) };
         let mut log: Vec<String> = Vec::new();
         let mut kinds: Vec<u64> = vec![scale_bits as u64];
         for _ in 0..steps {
